@@ -28,7 +28,7 @@ structure LevelFacts (X : SchemaX) (o : VOpts) (fuel : Nat) (cx1 cx2 cx3 : Cx) (
   r1tree : (validateNew X o cx1 ks).1 = ks.map normNew
   hE : hasInst (explicitL ks) = hasInst ks
   sel : Sel o (hasInst (explicitL ks)) (hasInst (pipeTree X o fuel cx1 cx2 cx3 sk ks)) sk
-  cnt : LvCnt (explicitL ks) (pipeTree X o fuel cx1 cx2 cx3 sk ks)
+  cnt : LvCnt X.base (explicitL ks) (pipeTree X o fuel cx1 cx2 cx3 sk ks)
   /-- every explicit node is on the completed level -/
   keeps : ∀ y ∈ ks, normNew y ∈ (implL X o cx2 sk (ks.map normNew)).1
   /-- the nodes of the completed level: explicit ones, or implicit instances of schema nodes in use that had no instance -/
@@ -41,7 +41,8 @@ structure LevelFacts (X : SchemaX) (o : VOpts) (fuel : Nat) (cx1 cx2 cx3 : Cx) (
 
 theorem level_facts (X : SchemaX) (o : VOpts) (hop : o.operational = false) (hq : X.q.implicitInnerCase = false) (fuel : Nat)
     (cx1 cx2 cx3 : Cx) (sk : List STree) (ks : List DNode) (hls : LevelSane sk) (hg : goodL X sk ks = true)
-    (hlen : ks.length ≤ uint32Max) : LevelFacts X o fuel cx1 cx2 cx3 sk ks := by
+    (hlen : ks.length ≤ uint32Max) (hio : ∀ k, BelowL k sk → X.base.get? k.sid = some k.info) :
+    LevelFacts X o fuel cx1 cx2 cx3 sk ks := by
   have hfr : isFreshL ks = true := goodL_fresh X sk ks hg
   have hall := (isFreshL_all ks).1 hfr
   have hr1 := (validateNew_fresh_full X o cx1 hop ks hfr).1
@@ -58,7 +59,7 @@ theorem level_facts (X : SchemaX) (o : VOpts) (hop : o.operational = false) (hq 
     intro n hn
     obtain ⟨y, hy, rfl⟩ := List.mem_map.1 hn
     exact normNew_dflt_fresh (hall y hy)
-  refine ⟨hr1, hEf, ?_, ⟨?_, ?_⟩, ?_, ?_, ?_, htree, hsid3⟩
+  refine ⟨hr1, hEf, ?_, ⟨?_, ?_, ?_⟩, ?_, ?_, ?_, htree, hsid3⟩
   · intro sid _
     rw [hsid3, hexact, hL1f, hEf]
   · intro sid hs
@@ -66,6 +67,13 @@ theorem level_facts (X : SchemaX) (o : VOpts) (hop : o.operational = false) (hq 
     rw [htree, rel2_instsOf_length hrel sid, implL_keepI X o cx2 sk (ks.map normNew) sid (by rw [hL1]; exact hs),
       instsOf_map_sid_length normNew_sid, explicitL_fresh ks hfr, instsOf_map_sid_length exN_sid]
   · rw [explicitL_fresh ks hfr, List.length_map]; exact hlen
+  · intro sid hs
+    rw [hEf] at hs
+    have hc := implL_cnt X o cx2 sk (ks.map normNew) (dfltBound X.base)
+      (fun k hk => by rw [dfltBound_of_get (hio k hk)]; exact Nat.le_refl _) sid
+    have h0 : (instsOf (ks.map normNew) sid).length = 0 := instsOf_len_zero (by rw [hL1]; exact hs)
+    rw [htree, rel2_instsOf_length hrel sid]
+    omega
   · intro y hy
     exact implL_keeps X o cx2 sk _ _ (List.mem_map_of_mem hy)
   · intro a ha
